@@ -12,7 +12,9 @@ D = SPEC / "Directives"
 TARGETS = ["a", "a::b", "ab", "b"]
 TFORM = re.compile(r"^[^\[\]=]*\[\{[^\]=]*\}\]=[^=]*$")
 # value tokens of field k: (token as the directive spells it and as the spec compares it, how the script records it)
-VTOK = ["1", "2", "true", "false", "-3", "1.5", "2.5", "abc", "abd"]
+VTOK = ["1", "2", "true", "false", "-3", "1.5", "2.5", "abc", "abd", "18446744073709551615", "-1"]
+# values that share a bit pattern or a spelling prefix with another one: when a directive mentions the key, the script also records the value
+NEAR = {"18446744073709551615": "-1", "-1": "18446744073709551615", "1": "i:1", "abc": "abd", "1.5": "2.5", "true": "false"}
 
 
 def recorded(rng, v):
@@ -46,7 +48,7 @@ def rand_dir(rng, static_only, names, tgts):
         s, f, v = "", rng.choice(["", "", "", "k"]), ""
     else:
         s = rng.choice(names)
-        f, v = rng.choice([("", ""), ("", ""), ("k", ""), ("k", "1"), ("k", "2"), ("k", rng.choice(VTOK))])
+        f, v = rng.choice([("", ""), ("", ""), ("k", ""), ("k", "1"), ("k", "2"), ("k", rng.choice(VTOK + ["18446744073709551615"] * 2))])
     return {"t": t, "s": s, "f": f, "v": v, "l": rng.choice([0, 1, 2, 3, 3, 4, 5, 5])}
 
 
@@ -60,7 +62,7 @@ def rand_script(rng, vals=()):
         if free and c < 0.35:
             h = rng.choice(free)
             name = rng.choice(["s1", "s1", "s2"])
-            k = rng.choice(["", "1", "1", "2"] + vals) if name == "s1" else ""
+            k = rng.choice(["", "1", "1", "2"] + vals * 2) if name == "s1" else ""
             state[h] = name if k == "" else name + "+"
             ops.append({"op": "span", "h": h, "lvl": rng.choice([1, 2, 3, 4, 5, 5]), "tgt": rng.choice(TARGETS), "name": name, "k": k, "kt": recorded(rng, k)})
         elif idle and c < 0.65:
@@ -107,6 +109,7 @@ def gen_cases(rng, n):
         tv = any("[" in g and not TFORM.match(g) for g in segs)
         # the script prefers the values the directives mention (and a near miss)
         vals = [d["v"] for d in dirs if d["v"]] + [rng.choice(VTOK)]
+        vals += [NEAR[v] for v in list(vals) if v in NEAR and NEAR[v] in VTOK]
         cases.append({"id": i, "s": s, "dirs": dirs, "tv": tv, "x": rng.randint(0, 5), "script": rand_script(rng, vals)})
     return cases
 
